@@ -111,6 +111,8 @@ def generate(rng, n, tier):
         elif kind == "impose":
             k = 0 if rng.random() < 0.03 else _n(rng)
             x = _samples(rng, k)
+            if rng.random() < 0.06:
+                x = [v * 2.0 ** -34 for v in x]      # samples of size 1e-10: a variance of 1e-20 is small, not zero
             w, ex = _weights(rng, k)
             which = rng.choice(["mean", "mean", "variance", "variance", "std", "spread", "spread"])
             q = rng.choice([0.5, 1.0, 1.5, 2.0, 3.0, 0.25, 0.0])
